@@ -5,7 +5,7 @@ CONSTANTS
   InitRestated = TRUE
   OriginFromSuper = FALSE
   AllowModifyBusy = FALSE
-  SigCheck = FALSE
+  SigCheck = TRUE
   Parent <- Chain4
   Mode = "clsq"
   QSels = {{1, 3}, {2, 3}, {1, 2}}
